@@ -80,13 +80,26 @@ def build(rng, kind, index=0):
     return pr, lib, phys, spec, N
 
 
-def run_once(pr, lib, path, spec, N, seed, pool=None, global_k=0, watch=True):
+def make_generator(seed, how="default_rng"):
+    """equal (seed, how) -> generators in the same state; only `default_rng` also fixes the generator's private seed sequence"""
+    if how == "default_rng":
+        return np.random.default_rng(seed)
+    if how == "jumped":                       # numpy's documented recipe for parallel streams
+        return np.random.Generator(np.random.PCG64(seed).jumped())
+    if how == "state-restored":               # a generator whose state was saved and restored
+        bg = np.random.PCG64()
+        bg.state = np.random.PCG64(seed).state
+        return np.random.Generator(bg)
+    raise ValueError(how)
+
+
+def run_once(pr, lib, path, spec, N, seed, pool=None, global_k=0, watch=True, how="default_rng"):
     """one seeded run on a fresh TheJoker; returns (canonical output, list of changed global-state items)"""
     import histlib as hl
     import rec
     set_globals(global_k)
     w = rec.GlobalRngWatch()
-    j = pr.joker(rng=np.random.default_rng(seed), pool=pool)
+    j = pr.joker(rng=make_generator(seed, how), pool=pool)
     out = hl.do_call(j, pr, spec, lib=lib, path=path, n_int=N)
     return out, (w.changed() if watch else [])
 
@@ -125,6 +138,29 @@ def repeat_case(ctx, g, kind):
         ctx.violation(rel, g, inp, hl.out_brief(a), hl.out_brief(b),
                       "two runs with the same seed, inputs and options (fresh TheJoker, fresh Generator(seed)) must "
                       "return bit-identical tables; they differ at " + d, tags=tags)
+    # generators in EQUAL STATE that were not built by default_rng(seed): the outputs must be equal as well
+    if spec["entry"] != "marginal" and g["index"] % 2 == 0:
+        how = ("jumped", "state-restored")[(g["index"] // 2) % 2]
+        rel3 = "generators in equal state (however constructed) => bit-identical output"
+        with hl.Scratch("c10") as sc:
+            path = sc.write_library(lib) if spec["source"] == "file" else None
+            try:
+                a2, _ = run_once(pr, lib, path, spec, N, seed, global_k=1, watch=False, how=how)
+                b2, _ = run_once(pr, lib, path, spec, N, seed, global_k=2, watch=False, how=how)
+                err = None
+            except Exception as e:   # noqa: BLE001
+                err = f"{type(e).__name__}: {str(e)[:160]}"
+        ctx.evaluated(rel3, (how, spec_key(spec)))
+        ctx.count(f"generator construction: {how}")
+        children = (not spec["in_memory"]) and spec["source"] in ("object", "file", "int")
+        if err is not None:
+            ctx.violation(rel3, g, dict(inp, generator=how), err, None, "a valid numpy Generator must be accepted", tags=dict(tags, generator=how))
+        else:
+            d2 = hl.out_diff(a2, b2)
+            if d2 is not None:
+                ctx.violation(rel3, g, dict(inp, generator=how), hl.out_brief(a2), hl.out_brief(b2),
+                              f"two runs with generators in the same state ({how}) must return bit-identical tables; they differ at " + d2,
+                              tags=dict(tags, generator=how, what="child streams from the generator's private seed sequence" if children else "other"))
     rel2 = "global numpy / Python random state untouched"
     ctx.evaluated(rel2, None)
     if ch_a or ch_b:
